@@ -32,9 +32,11 @@ VARIABLES s, t, r,    \* the inputs (fixed by Init)
           pc,         \* "replace", "join", "reverse", "done"
           cur, pos,   \* replace: working string and search start
           acc, k,     \* join / reverse: accumulator and loop index
-          rep, joined \* results of the finished loops
+          rep, joined,\* results of the finished loops
+          cnt         \* <<ReplaceFound, JoinStep, ReverseStep>> steps taken (exported:
+                      \* which actions ran how often is counted from the case records)
 
-vars == <<s, t, r, pc, cur, pos, acc, k, rep, joined>>
+vars == <<s, t, r, pc, cur, pos, acc, k, rep, joined, cnt>>
 
 \* replacement texts: nothing, a text containing the search text, one char
 Repls(tt) == {<< >>, tt \o tt, <<C0>>}
@@ -44,6 +46,7 @@ Parts == IF t = << >> THEN <<s>> ELSE SplitLit(s, t)
 Init == /\ s \in Strs(MaxS) /\ t \in Strs(MaxT) /\ r \in Repls(t)
         /\ pc = "replace" /\ cur = s /\ pos = 0
         /\ acc = << >> /\ k = 1 /\ rep = << >> /\ joined = << >>
+        /\ cnt = <<0, 0, 0>>
 
 -----------------------------------------------------------------------------
 (* replace(s, a, b, start = 0):
@@ -59,13 +62,14 @@ ReplaceFound ==
        /\ p # -1
        /\ cur' = Take(cur, p) \o r \o Drop(cur, p + Len(t))
        /\ pos' = p + Len(r)
+  /\ cnt' = [cnt EXCEPT ![1] = @ + 1]
   /\ UNCHANGED <<s, t, r, pc, acc, k, rep, joined>>
 
 ReplaceDone ==
   /\ pc = "replace"
   /\ (t = << >> \/ FindFrom(cur, t, pos) = -1)
   /\ rep' = cur /\ pc' = "join" /\ acc' = << >> /\ k' = 1
-  /\ UNCHANGED <<s, t, r, cur, pos, joined>>
+  /\ UNCHANGED <<s, t, r, cur, pos, joined, cnt>>
 
 (* join(lst, sep):  result = ""; for element in lst do result = result + sep
    + element end; return substr(result, length(sep))                        *)
@@ -73,24 +77,26 @@ ReplaceDone ==
 JoinStep ==
   /\ pc = "join" /\ k <= Len(Parts)
   /\ acc' = acc \o t \o Parts[k] /\ k' = k + 1
+  /\ cnt' = [cnt EXCEPT ![2] = @ + 1]
   /\ UNCHANGED <<s, t, r, pc, cur, pos, rep, joined>>
 
 JoinDone ==
   /\ pc = "join" /\ k > Len(Parts)
   /\ joined' = Drop(acc, Len(t)) /\ pc' = "reverse" /\ acc' = << >> /\ k' = 1
-  /\ UNCHANGED <<s, t, r, cur, pos, rep>>
+  /\ UNCHANGED <<s, t, r, cur, pos, rep, cnt>>
 
 (* reverse(str): result = ""; for ch in str do result = ch + result end     *)
 
 ReverseStep ==
   /\ pc = "reverse" /\ k <= Len(s)
   /\ acc' = <<s[k]>> \o acc /\ k' = k + 1
+  /\ cnt' = [cnt EXCEPT ![3] = @ + 1]
   /\ UNCHANGED <<s, t, r, pc, cur, pos, rep, joined>>
 
 ReverseDone ==
   /\ pc = "reverse" /\ k > Len(s)
   /\ pc' = "done"
-  /\ UNCHANGED <<s, t, r, cur, pos, acc, k, rep, joined>>
+  /\ UNCHANGED <<s, t, r, cur, pos, acc, k, rep, joined, cnt>>
 
 Next == ReplaceFound \/ ReplaceDone \/ JoinStep \/ JoinDone
         \/ ReverseStep \/ ReverseDone
@@ -175,12 +181,34 @@ Emit(tag, rec) == IF Export THEN PrintT("@@" \o tag \o "@@" \o ToJson(rec)) ELSE
 
 Seg(kk, txt, var, w, mode) ==
   [k |-> kk, txt |-> txt, var |-> var, w |-> w, mode |-> mode, hex |-> FALSE]
-Env1 == <<[k |-> "s", txt |-> s, n |-> 0]>>
+\* the values: s and t.  s(..) finds them as the variables v and u,
+\* sprintf(..) as its eleventh and its second argument: {10} and {1}
+NamedEnv(n1, n2) == <<[name |-> n1, k |-> "s", txt |-> s, n |-> 0, ds |-> << >>],
+                      [name |-> n2, k |-> "s", txt |-> t, n |-> 0, ds |-> << >>]>>
+EnvS == NamedEnv(<<118>>, <<117>>)
+EnvF == NamedEnv(<<49, 48>>, <<49>>)
 ModeOf(i) == IF i = 0 THEN "r" ELSE IF i = 1 THEN "l" ELSE "z"
+\* t {v#w} for every width and mode, then t {u}, then reverse(t) and an
+\* opening brace that is never closed, followed by a digit: ordinary text
 RECURSIVE IpSegs(_)
 IpSegs(i) ==
-  IF i >= 3 * (MaxS + 3) THEN <<Seg(0, Reverse(t), 1, 0, "r")>>
+  IF i >= 3 * (MaxS + 3)
+  THEN <<Seg(0, t, 1, 0, "r"), Seg(1, << >>, 2, 0, "r"), Seg(0, Reverse(t) \o <<123, 49>>, 1, 0, "r")>>
   ELSE <<Seg(0, t, 1, 0, "r"), Seg(1, << >>, 1, i \div 3, ModeOf(i % 3))>> \o IpSegs(i + 1)
+
+NoBrace(q) == \A i \in 1..Len(q) : q[i] \notin {123, 125}
+
+\* the two formulations of interpolation (segments / scanning the text) agree
+\* and the names play no part (checked for the short s: the widths 0..MaxS+2
+\* lie on both sides of their lengths)
+TemplateLaw ==
+  (pc = "done" /\ r = << >> /\ Len(s) <= 2 /\ NoBrace(t)) =>
+     LET segs == IpSegs(0)
+         want == Interp(segs, EnvS)
+         a    == S(TplText(segs, <<EnvS[1].name, EnvS[2].name>>), EnvS)
+         b    == S(TplText(segs, <<EnvF[1].name, EnvF[2].name>>), EnvF)
+     IN /\ a.ok /\ a.txt = want
+        /\ b.ok /\ b.txt = want /\ ~ArgNamesOK(EnvF)
 
 CaseRec ==
   [ s  |-> s, t |-> t, r |-> r,
@@ -194,12 +222,13 @@ CaseRec ==
     rv |-> acc,
     tr |-> Trim(s), up |-> Upper(s), lo |-> Lower(s),
     ln |-> Len(s),
+    cnt |-> cnt,
     cc |-> s \o t,
-    \* s('<t>{v#w}<t>{v#-w}<t>{v#0w}...<reverse t>'): one template with a
-    \* placeholder for every width 0..MaxS+2 and mode, each preceded by the
-    \* literal text t (once per pair: only in the record with the empty
+    \* s('<t>{v#w}<t>{v#-w}<t>{v#0w}...<t>{u}<reverse t>{1'): one template
+    \* with a placeholder for every width 0..MaxS+2 and mode, each preceded by
+    \* the literal text t (once per pair: only in the record with the empty
     \* replacement)
-    ip |-> IF r # << >> THEN << >> ELSE Interp(IpSegs(0), Env1) ]
+    ip |-> IF r # << >> THEN << >> ELSE Interp(IpSegs(0), EnvS) ]
 
 ExportCase == pc = "done" => Emit("CASE", CaseRec)
 
